@@ -43,7 +43,7 @@ func (lt LiteralType) ReferenceTargets(ctx context.Context, targetCtx *TargetCon
 		if targetCtx.ParentRangePtr != nil {
 			rangePtr = targetCtx.ParentRangePtr
 		} else {
-			rangePtr = lt.expr.Range().Ptr()
+			rangePtr = closedRange(lt.expr.Range()).Ptr()
 		}
 
 		return reference.Targets{
